@@ -207,6 +207,17 @@ func runC10(w *core.WorkerCtx, idx int) *core.CaseResult {
 				tt.Series, tt.TotalSeries = t.Series, t.Total
 				req[nextJob[h]] = append(req[nextJob[h]], tt)
 			}
+			if len(req) == 0 {
+				// the empty assignment has three legal spellings on the wire: {"targets":{}}, {"targets":null}
+				// (a nil map) and jobs with empty lists
+				switch r.Intn(3) {
+				case 0:
+					req = nil
+					res.AddStat("empty_updates_with_null_map", 1)
+				case 1:
+					req["j1"] = []*target.Target{}
+				}
+			}
 			if overlap {
 				// start the scrape and hold it inside the round trip to the target
 				gate, entered, overlapDone = make(chan struct{}), make(chan struct{}), make(chan struct{})
@@ -243,6 +254,28 @@ func runC10(w *core.WorkerCtx, idx int) *core.CaseResult {
 				storeStale = false
 			}
 			t1 := time.Now()
+			if failReload && err != nil {
+				// the statement does not say what a REJECTED update leaves behind: the requested state
+				// (what kvass does) or the previous one (a roll-back) - both are a "state last requested"
+				// of some update; the model follows whichever of the two the sidecar shows, consistently
+				if st, e := rg.in.Status(); e == nil {
+					like := func(want map[uint64]c10Tgt) bool {
+						if len(st) != len(want) {
+							return false
+						}
+						for h, t := range want {
+							if st[h] == nil || st[h].TargetState != t.State {
+								return false
+							}
+						}
+						return true
+					}
+					if like(cur) && !like(next) {
+						next, nextJob = cur, curJob
+						res.AddStat("rejected_updates_rolled_back", 1)
+					}
+				}
+			}
 			// model
 			nm := map[uint64]*c10Entry{}
 			for h, t := range next {
